@@ -199,17 +199,19 @@ CHECKS["C14"] = dict(
 
 CHECKS["C02"] = dict(
     category="other",
-    text=("Mixed, the deciding part is BOUNDED: discharged exactly on the real ast - the precedence/associativity table of "
-          "ExpressionEvaluator induces, through the climbing rule as written, the ISO C grouping for every ordered pair of the 18 "
-          "binary operators, unary binds tighter, ?: lowest and right associative (554 finite obligations), and an #elif of a "
-          "chain that already selected a branch is never evaluated (contract of the visitor closure, proved for all inputs). "
-          "The arithmetic (64-bit signed/unsigned with the usual conversions, 0/1 results, truncating / and %, literals in every "
-          "base/suffix, character constants with escapes, defined, unknown identifiers) is checked against a C reference evaluator "
-          "up to a stated bound (every atom x unary operator, every binary operator on 10x10 boundary operands, every operator "
-          "pair, ternary nesting, seeded random depth-3 expressions). Six defect classes found this way were fixed in /repo."),
-    design_ref="DESIGN.md section 5 C02, section 9",
-    note="A9 C reference evaluator and precedence table are trusted specs; the unsuffixed-literal OverflowError is pinned by tests/failure (known finding); macro expansion before evaluation belongs to C03.",
-    technique="syntactic/finite obligations on the real ast + contract on the visitor closure (pyvc+z3); arithmetic by a bounded native check",
+    text=("Mixed: PROVED for all inputs on the real ast/bodies - (a) the precedence/associativity table of ExpressionEvaluator "
+          "induces, through the climbing rule as written, the ISO C grouping for every ordered pair of the 18 binary operators, unary "
+          "binds tighter, ?: lowest and right associative (554 finite obligations); (b) __wrap, __apply_unary_op (4 operators) and "
+          "__apply_binary_op (18 operators) return the value and type ISO C defines for intmax_t/uintmax_t arithmetic for ALL operands "
+          "of both types whenever C defines the result (about 230 obligations over the integers; a failing one yields operands that are "
+          "replayed on the real function); (c) an #elif of a chain that already selected a branch is never evaluated. BOUNDED, and "
+          "deciding for the rest: literals in every base/suffix, character constants, defined, unknown identifiers, ?: and the "
+          "recursive parser are checked against a C reference evaluator (every atom x unary operator, every binary operator on "
+          "boundary operands, every operator pair, ternary nesting, seeded random depth-3 expressions). Six defect classes found "
+          "this way were fixed in /repo."),
+    design_ref="DESIGN.md section 5 C02, sections 9 and 13",
+    note="A9 C reference evaluator and precedence table are trusted specs; A2b Python's & | ^ agree with abstract 64-bit operators on the low 64 bits (bit-level meaning not proved); the unsuffixed-literal OverflowError is pinned by tests/failure (known finding); macro expansion before evaluation belongs to C03.",
+    technique="contracts on __wrap/__apply_unary_op/__apply_binary_op (per operator) and on the visitor closure, finite table obligations on the real ast (pyvc+z3); literals/parser by a bounded native check",
 )
 
 CHECKS["C05"] = dict(
